@@ -95,7 +95,7 @@ static unsigned long g_path_hash;	/* hash of the deviations consumed so far */
 
 unsigned long vrt_param_qs_attempts = 100, vrt_param_wait_attempts = 1000,
 	vrt_param_defer_queue_size = 1 << 12, vrt_param_min_partition_order = 12,
-	vrt_param_count_commit_order = 10, vrt_param_init_reader_count = 8;
+	vrt_param_count_commit_order = 10, vrt_param_init_reader_count = 8, vrt_param_affinity_period = 256;
 
 /* ------------------------------------------------------------------------------------------ */
 /* low level                                                                                  */
